@@ -82,6 +82,16 @@ func checkC14(c *CacheCase) (*ev.Failure, map[string]int) {
 	union, _ := c.World.UnionSchema()
 	seenKeyOp := map[string]map[int]bool{} // cache key -> pool indexes requested so far
 	post := func(gw *pebbles.Gateway, i int) *gwx.Response { return gwx.PostOp(gw, c.Pool[i], 10*time.Second) }
+	fragDir := map[int]bool{}
+	fragmentDirectiveOp := func(i int) bool {
+		if v, ok := fragDir[i]; ok {
+			return v
+		}
+		r := c.Pool[i]
+		fs := caseFeatures(&ExecCase{World: c.World, Op: opgen.Op{Query: r.Query, Variables: r.Variables, OperationName: r.OperationName}})
+		fragDir[i] = fs["op.directiveOnFragment"]
+		return fragDir[i]
+	}
 	compare := func(i int, ra, rb *gwx.Response, step int) *ev.Failure {
 		ka, ea, f := respKey(ra)
 		if f != nil {
@@ -90,6 +100,15 @@ func checkC14(c *CacheCase) (*ev.Failure, map[string]int) {
 		kb, eb, f := respKey(rb)
 		if f != nil {
 			return ev.Failf("harness", "plain gateway: %v", f)
+		}
+		if len(eb) > 0 && fragmentDirectiveOp(i) {
+			// directives on fragments are an open finding (KF-C01-19): where the plain gateway already fails on such an
+			// operation, which of the failing sub-requests is reported depends on their completion order - the claim
+			// here is only that the cached gateway does not turn the failure into a success
+			if len(ea) == 0 {
+				return ev.Failf("differs:errors", "step %d, pool op %d: the plain gateway answers with errors %v, the caching one with none", step, i, eb)
+			}
+			return nil
 		}
 		if ka != kb {
 			return ev.Failf("differs:data", "step %d, pool op %d (%s): the caching gateway answers differently from the plain one\ncached %s\nplain  %s", step, i, trunc(c.Pool[i].Query, 200), trunc(ka, 500), trunc(kb, 500))
@@ -432,7 +451,7 @@ func genCacheCase(t *rapid.T) (*CacheCase, []string) {
 
 func TestC14(t *testing.T) {
 	rec := ev.Get("C14")
-	rec.Rule = "stateful: a gateway with planner.NewCachedPlanner(ttl), ttl in {0, 1ns, 2ms, 1h}, and a gateway with the plain planner over one generated world (optionally with a Mutation field sharing name and signature with a Query field); operation pool built for cache-key collisions (same selection under different operation names, operation types, variable values and defaults, helper fields written out, a directive added to one fragment spread); TestC14ManyOps: 1001..1300 distinct operations within the TTL, then early ones again; history of 4..14 actions: request, burst of 2..5 concurrent requests, sleep 3ms; invariant after every request: (status, canonical data, error multiset) of the caching gateway == plain gateway. non-trivial = a history in which two different pool operations with equal selection text (the exported formatter's rendering, the historic cache key) are both requested; distinct by hash(history, pool)"
+	rec.Rule = "stateful: a gateway with planner.NewCachedPlanner(ttl), ttl in {0, 1ns, 2ms, 1h}, and a gateway with the plain planner over one generated world (optionally with a Mutation field sharing name and signature with a Query field); operation pool built for cache-key collisions (same selection under different operation names, operation types, variable values and defaults, helper fields written out, a directive added to one fragment spread); TestC14ManyOps: 1001..1300 distinct operations within the TTL, three of them several KiB long and equal up to their last field, then early ones again; history of 4..14 actions: request, burst of 2..5 concurrent requests, sleep 3ms; invariant after every request: (status, canonical data, error multiset) of the caching gateway == plain gateway. non-trivial = a history in which two different pool operations with equal selection text (the exported formatter's rendering, the historic cache key) are both requested; distinct by hash(history, pool)"
 	defer census.dump("C14")
 	mixIntrospection = true
 	defer func() { mixIntrospection = false }()
@@ -573,6 +592,20 @@ func TestC14ManyOps(t *testing.T) {
 			sel := []string{"name phone", "phone", "id name", "name"}[i%4]
 			c.Pool = append(c.Pool, gwx.GQLRequest{Query: fmt.Sprintf("{ a%d: getHumans { %s } }", i, sel)})
 			c.History = append(c.History, CacheAction{Kind: "request", Ops: []int{i}})
+		}
+		// two very long operations (key material of several KiB) that differ only near their end
+		long := func(last string) string {
+			var b strings.Builder
+			b.WriteString("{")
+			for i := 0; i < 260; i++ {
+				fmt.Fprintf(&b, " long%d: getHumans { name }", i)
+			}
+			b.WriteString(" tail: getHumans { " + last + " } }")
+			return b.String()
+		}
+		for _, last := range []string{"name", "phone", "id name phone"} {
+			c.Pool = append(c.Pool, gwx.GQLRequest{Query: long(last)})
+			c.History = append(c.History, CacheAction{Kind: "request", Ops: []int{len(c.Pool) - 1}})
 		}
 		again := rapid.IntRange(5, 40).Draw(t, "again")
 		for k := 0; k < again; k++ {
